@@ -1337,7 +1337,25 @@ def construct(E, clsv, args, kwargs, node):
     r = E.repo.resolve_method(mod, cname, "__init__")
     if r is None:
         if args or kwargs:
-            raise OutOfSubset(f"constructor args for {cname} without __init__")
+            # a dataclass-style class (annotated fields, no __init__): positional / keyword arguments fill the annotated fields in order,
+            # the rest take their class-level defaults
+            cm_, cn_ = find_class(E, cname)
+            cdef_ = cm_.classes.get(cn_) if cm_ is not None else None
+            ann = [n_ for n_ in (cdef_.body if cdef_ is not None else []) if isinstance(n_, ast.AnnAssign) and isinstance(n_.target, ast.Name)]
+            if not ann or len(args) > len(ann) or any(k_ not in [a_.target.id for a_ in ann] for k_ in kwargs):
+                raise OutOfSubset(f"constructor args for {cname} without __init__")
+            for k_, a_ in enumerate(ann):
+                nm = a_.target.id
+                if k_ < len(args):
+                    val = args[k_]
+                elif nm in kwargs:
+                    val = kwargs[nm]
+                elif a_.value is not None:
+                    val = E.ev(a_.value)
+                else:
+                    raise OutOfSubset(f"{cname}: no value for field {nm}")
+                if E.field_type(obj.ty, nm) is not None:
+                    set_attribute(E, obj, nm, val, node)
         return obj
     m, cdef, fn = r
     fv = V("fn", None, items=("def", fn, {}, m, obj), py=f"{cdef}.__init__")
